@@ -417,4 +417,99 @@ def resize (dflt : α) (_ : Cyclic α) (size : Nat) : Cyclic α :=
 
 end Cyclic
 
+/-! ## igris/datastruct/bytering.h — the pointer version of the byte ring
+
+`struct bytering_head { unsigned char *start, *head, *tail, *end; }`.  Pointers
+are addresses (`Nat`); the memory block handed to `bytering_init` is a
+`List Byte` living at address `start`, every dereference is bounds-tested
+against it (`none` = access outside the block).  Queue convention of this file:
+`push` stores at `tail`, `pop` loads from `head`.  The functions are the code
+after the `fix:` commits; `…Orig` are the pre-repair bodies (witnesses only). -/
+
+structure ByteRing where
+  start : Nat
+  head : Nat
+  tail : Nat
+  end_ : Nat
+  deriving DecidableEq, Repr
+
+/-- `r->start = r->head = r->tail = buf; r->end = buf + size;` -/
+def brInit (buf size : Nat) : ByteRing := { start := buf, head := buf, tail := buf, end_ := buf + size }
+
+/-- repaired `__bytering_fixup(r, &p)`: `if (*fixed >= r->end) *fixed = r->start;` -/
+def brFixup (b : ByteRing) (p : Nat) : Nat := if p ≥ b.end_ then b.start else p
+
+/-- pre-repair: `if (r->end >= *fixed) *fixed = r->start;` (true for every
+pointer inside the block: the pointer is reset on every step) -/
+def brFixupOrig (b : ByteRing) (p : Nat) : Nat := if b.end_ ≥ p then b.start else p
+
+/-- `return r->head == r->tail;` -/
+def brEmpty (b : ByteRing) : Bool := b.head == b.tail
+
+/-- repaired `bytering_full`: `return r->tail == (r->head == r->start ? r->end : r->head) - 1;` -/
+def brFull (b : ByteRing) : Bool := b.tail == (if b.head == b.start then b.end_ else b.head) - 1
+
+/-- pre-repair: `return r->head == (r->tail == r->start ? r->end : r->tail) - 1;`
+(the formula of ring.h, where `head` is the write side — here `tail` is) -/
+def brFullOrig (b : ByteRing) : Bool := b.head == (if b.tail == b.start then b.end_ else b.tail) - 1
+
+/-- `*p` (load) for a pointer into the block at `start` -/
+def brLoad (b : ByteRing) (mem : List Byte) (p : Nat) : Option Byte :=
+  if p < b.start then none else mem[p - b.start]?
+
+/-- `*p = c` (store) -/
+def brStore (b : ByteRing) (mem : List Byte) (p : Nat) (c : Byte) : Option (List Byte) :=
+  if p < b.start then none else poke mem (p - b.start) c
+
+/-- `unsigned char ret = *r->head++; __bytering_fixup(r, &r->head); return ret;` -/
+def brPopNocheckWith (fix : ByteRing → Nat → Nat) (b : ByteRing) (mem : List Byte) :
+    Option (ByteRing × Int) :=
+  match brLoad b mem b.head with
+  | none => none
+  | some c => some ({ b with head := fix b (b.head + 1) }, (c.toNat : Int))
+
+/-- `*r->tail++ = c; __bytering_fixup(r, &r->tail); return 0;` -/
+def brPushNocheckWith (fix : ByteRing → Nat → Nat) (b : ByteRing) (mem : List Byte) (c : Byte) :
+    Option (ByteRing × List Byte) :=
+  match brStore b mem b.tail c with
+  | none => none
+  | some mem' => some ({ b with tail := fix b (b.tail + 1) }, mem')
+
+def brPopNocheck := brPopNocheckWith brFixup
+def brPushNocheck := brPushNocheckWith brFixup
+
+/-- `if (bytering_empty(r)) return -1; return bytering_pop_nocheck(r);` -/
+def brPopWith (fix : ByteRing → Nat → Nat) (b : ByteRing) (mem : List Byte) : Option (ByteRing × Int) :=
+  if brEmpty b then some (b, -1) else brPopNocheckWith fix b mem
+
+/-- `if (bytering_full(r)) return -1; bytering_push_nocheck(r, c); return 0;` -/
+def brPushWith (full : ByteRing → Bool) (fix : ByteRing → Nat → Nat) (b : ByteRing) (mem : List Byte)
+    (c : Byte) : Option (ByteRing × List Byte × Int) :=
+  if full b then some (b, mem, -1)
+  else (brPushNocheckWith fix b mem c).map fun (b', m') => (b', m', 0)
+
+def brPop := brPopWith brFixup
+def brPush := brPushWith brFull brFixup
+
+/-- operation language of bytering.h (what the driver executes, what the
+history theorems quantify over) -/
+inductive BOp where
+  | push (c : Byte)
+  | pop
+  deriving Repr
+
+def stepB (b : ByteRing) (mem : List Byte) : BOp → Option (ByteRing × List Byte × Int)
+  | .push c => brPush b mem c
+  | .pop => (brPop b mem).map fun (b', v) => (b', mem, v)
+
+def runB : ByteRing → List Byte → List BOp → Option (ByteRing × List Byte × List Int)
+  | b, mem, [] => some (b, mem, [])
+  | b, mem, op :: ops =>
+    match stepB b mem op with
+    | none => none
+    | some (b', mem', o) =>
+      match runB b' mem' ops with
+      | none => none
+      | some (b'', mem'', os) => some (b'', mem'', o :: os)
+
 end Igris.C03
